@@ -345,6 +345,9 @@ func (fr *Frame) frameAllowed() (map[string][]*Term, map[string]bool) {
 	for _, m := range top.fc.Modifies {
 		if m.Kind == "id" {
 			whole["ghost:"+m.Name] = true
+			if k := e.globalKeyOf(top.fn.Pkg.PkgPath, m.Name); k != "" {
+				whole[k] = true
+			}
 			continue
 		}
 		if m.Kind != "sel" {
